@@ -515,7 +515,10 @@ func (s *ObjectStorage) SetEncodedObject(o plumbing.EncodedObject) (h plumbing.H
 		return plumbing.ZeroHash, err
 	}
 
-	return o.Hash(), err
+	// Report the id the object is stored under (computed by the writer
+	// in the repository's object format), not the one o computes for
+	// itself: a MemoryObject built without a hasher defaults to SHA-1.
+	return ow.Hash(), err
 }
 
 // LazyWriter returns a lazy ObjectWriter that is bound to a DotGit file.
